@@ -154,7 +154,11 @@ func AppendFloat(b []byte, f float64, prec int) []byte {
 	if prec < 0 || 17 < prec {
 		prec = 17 // maximum number of significant digits in double
 	}
-	prec -= float64exp(f) // number of digits in front of the dot
+	exp10 := float64exp(f)
+	if f < math.Pow10(exp10) {
+		exp10-- // float64exp overestimates for 2^n <= f < 10^m
+	}
+	prec -= exp10 // number of digits in front of the dot
 	if 308 < prec {
 		// math.Pow10 overflows above 308, scale in two steps
 		f *= math.Pow10(308)
